@@ -250,6 +250,11 @@ def run_B(case):
     viol = []
     zone = case.get("zone", "America/Chicago")
     m = em.DailyModel.from_dict(dd.document(subs, s, tz=zone))
+    # other model objects, with other maps, come into being between this model's construction and its use (a batch): a model routes
+    # with ITS OWN maps whatever was built afterwards
+    em.DailyModel()
+    em.BillingModel()
+    em.DailyModel(settings={"weekday_weekend": {"monday": "weekend", "saturday": "weekday"}, "season": {"july": "winter"}})
     idx = ds.local_days("2023-01-01", 731, zone)
     data = em.DailyReportingData(pd.DataFrame({"temperature": 50.0 + (np.arange(731) % 30)}, index=idx), is_electricity_data=True)
     p = m.predict(data)
